@@ -139,7 +139,7 @@ func runPingCase(pc pingCase) (string, string) {
 
 func runC15(ctx *runCtx) {
 	rep := ctx.rep
-	rep.Rule = "receive side: streams with Ping frames of every payload length 0..125 placed before, between and inside fragmented (compressed) messages, read by an explicit reader; ground truth: one Pong per Ping, same payload, same order, nothing for Pongs. " +
+	rep.Rule = "receive side: streams with Ping frames of every payload length 0..125 placed before, between and inside fragmented (compressed) messages, runs of adjacent Pings arriving in one piece, read by an explicit reader; ground truth: one Pong per Ping, same payload, same order, nothing for Pongs. " +
 		"Ping API: 1..12 outstanding Ping calls against a raw peer that answers in reverse / shuffled order, duplicates pongs, withholds some, or sends foreign and unsolicited pongs first; each call must return nil iff its own pong was sent; both roles; CloseRead or explicit reader. Ping registry programs (calls starting, Pongs with own / other calls' / future / look-alike / non-UTF-8 / empty payloads arriving, calls giving up, in generated orders) against by-construction ground truth and the Lean registry model. distinct = case tuple"
 	if ctx.replay != "" {
 		var pp pingProg
@@ -187,6 +187,41 @@ func runC15(ctx *runCtx) {
 		b, _ := gs.encode()
 		c.Stream = hex.EncodeToString(b)
 		c.Exp = gs.expectPrefix(len(gs.Frames), "end of stream at a frame boundary")
+		cases = append(cases, c)
+	}
+	// runs of adjacent Pings that reach the library in one piece (the next Ping is already buffered when the
+	// previous one is answered): before a message, between two fragments, after the last message
+	for i := 0; i < 24; i++ {
+		client := i%2 == 0
+		mk := func(f RawFrame) []byte {
+			f.Masked, f.Key = !client, [4]byte{byte(i), 2, 3, 4}
+			return f.Encode()
+		}
+		var stream []byte
+		var pongs []string
+		run := func() {
+			for k := 2 + rng.Intn(3); k > 0; k-- {
+				p := randBytes(rng, []int{0, 1, 3, 125, rng.Intn(126)}[rng.Intn(5)])
+				stream = append(stream, mk(RawFrame{Fin: true, Op: 9, Payload: p})...)
+				pongs = append(pongs, hx(p))
+			}
+		}
+		body := randBytes(rng, 40)
+		where := i % 3
+		if where == 0 {
+			run()
+		}
+		stream = append(stream, mk(RawFrame{Fin: false, Op: 2, Payload: body[:20]})...)
+		if where == 1 {
+			run()
+		}
+		stream = append(stream, mk(RawFrame{Fin: true, Op: 0, Payload: body[20:]})...)
+		if where == 2 {
+			run()
+		}
+		c := &ReadCase{Desc: fmt.Sprintf("adjacent pings (position %d)", where), Client: client, Term: "eof", Chunks: nil, Bufs: []int{4096},
+			Stream: hex.EncodeToString(stream)}
+		c.Exp = Expect{Why: "end of stream at a frame boundary", Msgs: []ExpMsg{{Typ: 2, Data: hx(body)}}, Pongs: pongs}
 		cases = append(cases, c)
 	}
 	runReadCases(ctx, cases, func(c *ReadCase) string { return "pings" })
